@@ -231,3 +231,88 @@ SCENARIOS = [
     Scenario("C14.rules.per_match_state", s_rule_state, kind="evaluation",
              trusted=["must-assign analysis is conservative: loops, try and with bodies are assumed not to execute"]),
 ]
+
+
+def s_attr_constant_is_a_snapshot(_ctx):
+    """_translate_attr: a script-time value used as an attribute is fixed when the decorator runs — mutating the global
+    afterwards (in place, for a numpy array or a list) must not change the attribute already built.  Concrete run of the
+    real function on real values (ndarray / list / nested list / scalar), then in-place mutation, then comparison."""
+    import ast as _ast
+    import numpy as np
+    import onnx_ir as ir
+    from contracts.c17_opsets import Agg
+    from pyvc.core import Ctx
+    from contracts import convmodel as CM
+    agg = Agg()
+    cl = "C14: 'Script-time constants are fixed when the decorator runs: mutating globals afterwards changes neither the generated protos nor later calls'"
+    cases = [("float32 ndarray as tensor", np.array([1.0, 2.0], dtype=np.float32), ir.AttributeType.TENSOR),
+             ("int64 ndarray as tensor", np.array([[1, 2], [3, 4]], dtype=np.int64), ir.AttributeType.TENSOR),
+             ("list of floats", [1.0, 2.0], ir.AttributeType.FLOATS),
+             ("list of ints", [1, 2], ir.AttributeType.INTS),
+             ("float list as tensor", [1.0, 2.0], ir.AttributeType.TENSOR)]
+    n = 0
+    for label, value, atype in cases:
+        n += 1
+        ctx = Ctx([], {"solver_s": 0.0, "queries": 0})
+        I = Interp(ctx, models=CM.converter_models())
+        # the real ir.tensor / AttrTensor are wanted here
+        import onnx_ir
+        for k in (onnx_ir.tensor, onnx_ir.AttrTensor, onnx_ir.AttrInt64):
+            I.models.pop(k, None)
+        self = CM.new_converter(I)
+        C = CM._conv_cls()
+        self.fields["globals"] = {"G": value}
+        I.models[C._eval_constant_expr] = lambda interp, slf, e: slf.fields["globals"]["G"]
+        meta = SObj(object, "attr_meta")
+        meta.fields.update(type=atype, required=False)
+        expr = _ast.parse("G + 0", mode="eval").body     # any expression that is not a plain local name
+        try:
+            attr = I.run_closure(I.closure_of(C._translate_attr), [self, "value", expr, meta], {})
+
+            def snapshot(a):
+                v = a.value
+                return v.numpy().tolist() if hasattr(v, "numpy") else list(v)
+            before = snapshot(attr)
+            if isinstance(value, np.ndarray):
+                value.reshape(-1)[0] = 100
+            else:
+                value[0] = 100
+            after = snapshot(attr)
+            ok = before == after
+            detail = f"{label}: attribute built as {before}; after mutating the global in place it reads {after}"
+        except Exception as e:  # noqa: BLE001
+            ok, detail = False, f"{label}: {type(e).__name__}: {e}"
+        agg.ob("C14.converter.attribute_value_is_a_snapshot_of_the_script_time_constant", ok, detail, cl, case=label)
+    # the same for a script-time value used as an OPERAND (x + W): Converter._emit_const
+    for label, value in (("float32 ndarray operand", np.array([1.0, 2.0], dtype=np.float32)), ("list operand", [1.0, 2.0])):
+        n += 1
+        ctx = Ctx([], {"solver_s": 0.0, "queries": 0})
+        I = Interp(ctx, models=CM.converter_models())
+        for k in (onnx_ir.tensor, onnx_ir.AttrTensor, onnx_ir.AttrInt64):
+            I.models.pop(k, None)
+        self = CM.new_converter(I)
+        C = CM._conv_cls()
+        got = []
+        I.models[C._generate_unique_name] = lambda interp, slf, candidate="tmp": "const_0"
+        I.models[C._emit1] = lambda interp, slf, outs, op_, ins, attrs=None: (got.append(attrs) or "value")
+        from onnxscript._internal import values as _values
+        I.models[_values.Op] = lambda interp, opset, name, *a: ("Op", name)
+        try:
+            I.run_closure(I.closure_of(C._emit_const), [self, value, None, CM.real_info()], {})
+            t = got[0][0].value
+            before = t.numpy().tolist()
+            if isinstance(value, np.ndarray):
+                value[0] = 100
+            else:
+                value[0] = 100
+            after = t.numpy().tolist()
+            ok, detail = before == after, f"{label}: Constant built as {before}; after mutating the global in place it reads {after}"
+        except Exception as e:  # noqa: BLE001
+            ok, detail = False, f"{label}: {type(e).__name__}: {e}"
+        agg.ob("C14.converter.constant_operand_is_a_snapshot_of_the_script_time_constant", ok, detail, cl, case=label)
+    return {"obligations": agg.obs, "paths": n, "covered": [f"attribute_cases={n}"], "notes": [], "functions": []}
+
+
+SCENARIOS.append(Scenario("C14.converter.attr_snapshot", s_attr_constant_is_a_snapshot,
+                          [("onnxscript/_internal/converter.py", "Converter._translate_attr"), ("onnxscript/_internal/converter.py", "Converter._emit_const")], kind="evaluation",
+                          trusted=["ir.tensor / ir.convenience.convert_attribute (onnx_ir)"]))
